@@ -343,6 +343,8 @@ func (e *esdtNFTTransfer) addNFTToDestination(
 		}
 	}
 	esdtDataToTransfer.Value.Add(esdtDataToTransfer.Value, currentESDTData.Value)
+	// the freeze flag belongs to the account's own entry, it does not travel with the token
+	esdtDataToTransfer.Properties = currentESDTData.Properties
 
 	_, err = saveESDTNFTToken(userAccount, esdtTokenKey, esdtDataToTransfer, e.marshalizer, e.pauseHandler, isReturnWithError)
 	if err != nil {
